@@ -29,6 +29,11 @@ T = {
     'C07-m1': ('C07', 'pretty_datetime takes the three-positional shortcut BEFORE appending tzinfo / fold: a tz-aware (or fold=1) datetime exactly at midnight prints as a naive date-only datetime', {'C07': 'VIOLATION with input (eval oracle); the Stdlib model correspondence differs as well'}),
     'C12-m1': ('C12', 'FlatChoice.normalize reads both branches of its lazy copy (eager normalisation) to hoist a forced break: containers commented at every nesting level cost 2^depth (list family, linear before)', {'C12': 'VIOLATION with family/parameter (after enforcing the step budget inside the run; before that the check did not terminate in reasonable time)'}),
     'C03-m1': ('C03', 'the dangling comma of a commented one-element tuple is added only in the flat variant: at narrow widths (comment above the element) the 1-tuple prints as a parenthesised expression', {'C03': 'VIOLATION with input', 'C09': 'VIOLATION with input'}),
+    'C01-m2': ('C01', 'escape_str_for_quote drops the "single quotes wanted, repr used double quotes" branch: a SPLIT string whose chosen quote is single and one of whose pieces holds an apostrophe and no double quote prints an unterminated literal', {'C01': 'VIOLATION with input', 'C02': 'VIOLATION with input'}),
+    'C02-m2': ('C02', 'NONWORD_PATTERN_BYTES loses its capturing group: long whitespace-free bytes values are split on ASCII punctuation and the punctuation bytes vanish from the pieces', {'C02': 'VIOLATION with input', 'C01': 'not detected at the quick tier (C01 samples few long whitespace-free bytes values; C02 is the property broken)'}),
+    'C04-m2': ('C04', 'align caches its evaluated Nest per column (key ignores the indentation): the same align object evaluated at one column under two indentations - nested aligns inside a group that ends up broken, a sub-document shared under two nests, or a second layout run of the object - gets the stale offset', {'C04': 'VIOLATION with input and history (missed at first: every document was a fresh tree; added align-heavy documents, documents SHARING one sub-document object, and replays that record the earlier layouts of the same object)', 'C06': 'VIOLATION no-failing-input-found (engine correspondence)', 'C05': 'not detected (classic algebra only)', 'C03': 'not detected (printers build no align)'}),
+    'C05-m2': ('C05', 'both fitting predicates answer True at a not-yet-laid-out sibling group (BREAK mode): a group that fits flat followed on the same line by a group that does not, whose leading text is long, overflows', {'C05': 'VIOLATION with input', 'C04': 'VIOLATION (engine correspondence and oracle)'}),
+    'C06-m2': ('C06', 'smart_fitting_predicate gives up when chars_left <= 0 and the stack is non-empty: a nested group whose line is EXACTLY as wide as the available width is broken although it fits', {'C06': 'VIOLATION with input', 'C05': 'VIOLATION no-failing-input-found (engine correspondence)'}),
 }
 
 
